@@ -56,6 +56,15 @@ def run(ctx, scratch):
             for rep in range(reps):
                 square = rep % 3 == 2
                 spec, nr, nc, fam = cases.make_matrix(rng, 'bip', nmax, weighted=rng.random() < 0.5)
+                if name == 'Spectral' and rep % 4 == 1 and not (rep % 3 == 2):
+                    # a thin biadjacency (1 or 2 rows or columns): the block graph still has n_row + n_col nodes, and as many
+                    # components as it would be given for as the adjacency of that graph
+                    thin, wide = rng.randint(1, 2), rng.randint(4, 7)
+                    E_ = sorted({(i, j) for i in range(thin) for j in range(wide) if rng.random() < 0.8} | {(0, j) for j in range(wide)})
+                    if rng.random() < 0.5:
+                        E_, thin, wide = sorted((j, i) for (i, j) in E_), wide, thin
+                    spec = dict(shape=[thin, wide], coo=[[i, j, rng.randint(1, 3)] for (i, j) in E_], dtype='int', fmt='csr')
+                    nr, nc, fam = thin, wide, 'thin'
                 if square:
                     # square biadjacency: must be declared with force_bipartite (or row/column seeds)
                     m = min(nr, nc)
@@ -111,6 +120,22 @@ def run(ctx, scratch):
                 #  must not be able to excuse itself through its own spectrum)
                 if cases.degenerate(impl, name, s2, o2):
                     ctx.margin_dropped += 1
+                    # the vectors are not determined by the input, but the NUMBER of components and the spectrum are: same shapes
+                    # of every embedding, same eigen / singular values
+                    expd = split_block(b['ok'], nr, nc)
+                    for k_, (tag, val) in expd.items():
+                        g_ = a['ok'].get(k_)
+                        if g_ is None or tag not in ('emb', 'svals', 'mat'):
+                            continue
+                        shp = lambda v: (len(v), len(v[0]) if v and isinstance(v[0], list) else None)
+                        if shp(val) != shp(g_[1]):
+                            ctx.violation(name, 'bipartite result is not the block-adjacency result: %s has another shape' % k_, case=case,
+                                          entry=name, kind='not_block_equivalent', family=case['family'], expected=list(shp(val)),
+                                          observed=list(shp(g_[1])), degenerate_spectrum=True)
+                        elif tag == 'svals' and not all(abs(x - y) <= 1e-6 * max(1.0, abs(x)) for x, y in zip(val, g_[1])):
+                            ctx.violation(name, 'bipartite result is not the block-adjacency result: %s' % k_, case=case, entry=name,
+                                          kind='not_block_equivalent', family=case['family'], expected=val, observed=g_[1],
+                                          degenerate_spectrum=True)
                     continue
                 exp = split_block(b['ok'], nr, nc)
                 got = {k: v for k, v in a['ok'].items() if not k.startswith('__') and k != 'aggregate_'}
